@@ -217,6 +217,34 @@ def _simplify_items(t):
     return t
 
 
+_CTOR_FIELDS: dict = {}
+
+
+def _ctor_field_arg(module, cname: str, field: str):
+    """(parameter names of C.__init__ without self, index) when `self.<field> = <parameter>` is a top-level statement of C.__init__, the
+    only store of that field in it, and the parameter is not rebound before; None otherwise"""
+    if module is None:
+        return None
+    key = (id(module), cname, field)
+    if key in _CTOR_FIELDS:
+        return _CTOR_FIELDS[key]
+    res = None
+    c = getattr(module, "classes", {}).get(cname)
+    init = c.methods.get("__init__") if c is not None else None
+    if init is not None and not init.args.vararg and not init.args.kwarg and not init.decorator_list:
+        params = [a.arg for a in init.args.args][1:]
+        stores = [n for n in ast.walk(init) if isinstance(n, ast.Attribute) and isinstance(n.ctx, ast.Store) and n.attr == field
+                  and isinstance(n.value, ast.Name) and n.value.id == "self"]
+        top = [st for st in init.body if isinstance(st, ast.Assign) and len(st.targets) == 1 and isinstance(st.targets[0], ast.Attribute)
+               and st.targets[0].attr == field and isinstance(st.targets[0].value, ast.Name) and st.targets[0].value.id == "self"
+               and isinstance(st.value, ast.Name) and st.value.id in params]
+        rebound = {n.id for n in ast.walk(init) if isinstance(n, ast.Name) and isinstance(n.ctx, (ast.Store, ast.Del))}
+        if len(stores) == 1 and len(top) == 1 and top[0].value.id not in rebound:
+            res = (tuple(params), params.index(top[0].value.id))
+    _CTOR_FIELDS[key] = res
+    return res
+
+
 def call_args(t, names: Sequence[str]) -> Optional[Tuple[Term, ...]]:
     """the arguments of call term t in the order of the parameter `names`, whether they were passed positionally or by
     keyword; None if that cannot be told (star arguments, unknown keyword, missing argument)"""
@@ -448,6 +476,13 @@ class Sym:
                     nf = _nt_fields(nts, a)
                     if nf is not None and e.attr in nf[0] and len(alts(v)) == 1:
                         return nf[1][nf[0].index(e.attr)]
+            # C(a, b).field where C's __init__ stores that field straight from a parameter: the argument itself
+            if is_call_of(v) and v[1][:1] == ("glob",) and len(alts(v)) == 1:
+                fa = _ctor_field_arg(getattr(self.cx, "module", None), v[1][1], e.attr)
+                if fa is not None:
+                    got = call_args(v, fa[0])
+                    if got is not None:
+                        return got[fa[1]]
             # self.TABLE where TABLE is a class-level literal (tuple / dict of constants and names) that no method rebinds
             cls = getattr(self.cx, "cls", None)
             if v == SELF and cls is not None and e.attr in getattr(cls, "consts", {}) and e.attr.isupper() or \
